@@ -63,7 +63,8 @@ def load_campaign(pid):
 
 def apply_edit(root, m):
     if m.get("patch"):
-        r = subprocess.run(["patch", "-p1", "-s", "-d", root, "-i", m["patch"]], capture_output=True, text=True)
+        pf = m["patch"] if os.path.isabs(m["patch"]) else os.path.join(VERIF, m["patch"])
+        r = subprocess.run(["patch", "-p1", "-s", "-d", root, "-i", pf], capture_output=True, text=True)
         return None if r.returncode == 0 else "edit anchor not found: patch does not apply (%s)" % (r.stdout + r.stderr)[-120:]
     path = os.path.join(root, "include", m.get("file", "SplineTrajectory.hpp"))
     s = open(path).read()
